@@ -466,7 +466,8 @@ func maybeEmitText(l *lexer, backup int) {
 // lexText scans until an opening command delimiter, "{".
 // it ignores line comments (//) and block comments (/* */).
 func lexText(l *lexer) stateFn {
-	var r, lastChar rune
+	// (noChar: nothing read yet in this run of text — a NUL is a character.)
+	var r, lastChar rune = noChar, noChar
 	for {
 		lastChar = r
 		r = l.next()
@@ -478,12 +479,12 @@ func lexText(l *lexer) stateFn {
 				// '//' only begins a comment if the previous character is whitespace,
 				// or if we are the start of input.
 				var lastCharEmitted = lastChar
-				if lastChar == 0 && l.lastEmit.val != "" {
+				if lastChar == noChar && l.lastEmit.val != "" {
 					lastCharEmitted = rune(l.lastEmit.val[len(l.lastEmit.val)-1])
 				}
-				if lastCharEmitted == 0 || isSpaceEOL(lastCharEmitted) {
+				if lastCharEmitted == noChar || isSpaceEOL(lastCharEmitted) {
 					maybeEmitText(l, 3)
-					if lastChar != 0 {
+					if lastChar != noChar {
 						l.start++ // ignore the preceding space, if present.
 					}
 					return lexLineComment(l)
